@@ -434,4 +434,75 @@ impl<'a, H: Header> TagIter<'a, H> {
 //@end
 }
 
+
+// ---------------------------------------------------------------------------
+// C03: the specification's tag walk, and the proof that iterating the real
+// `next` reproduces it (glue code written here, calling the extracted `next`).
+// ---------------------------------------------------------------------------
+/// offsets (relative to the buffer) of the tags a spec-following walk finds:
+/// the first at `off`, each next one at the previous offset plus its size
+/// rounded up to 8, until the end of the buffer.  A size below the header size
+/// cannot be walked past (the real iterator panics there).
+pub open spec fn spec_walk<H: Header>(it: TagIter<H>, off: int) -> Seq<int>
+    decreases it.buffer@.len() - off
+{
+    if off < 0 || off >= it.buffer@.len() {
+        Seq::empty()
+    } else {
+        let sz = it.hdr_at_off(off).declared_total();
+        if sz < 8 || off + round8(sz) > it.buffer@.len() {
+            // a size below 8 or a tag that would leave the region: the walk
+            // cannot continue (the real iterator ends in a controlled panic)
+            seq![off]
+        } else {
+            seq![off].add(spec_walk(it, off + round8(sz)))
+        }
+    }
+}
+
+pub fn walk_collect<'a, H: Header + 'a>(it: &mut TagIter<'a, H>) -> (offs: Ghost<Seq<int>>)
+    requires old(it).wf(), panics_allowed(), size_of::<H>() == 8,
+    ensures
+        // finite, yields exactly the spec walk, ends exhausted
+        offs@ == spec_walk(*old(it), old(it).next_tag_offset as int),
+        final(it).next_tag_offset == final(it).buffer@.len(),
+        final(it).buffer == old(it).buffer,
+{
+    let ghost mut seen: Seq<int> = Seq::empty();
+    let ghost start = *it;
+    loop
+        invariant
+            it.wf(), it.buffer == start.buffer, panics_allowed(), size_of::<H>() == 8,
+            seen.add(spec_walk(start, it.next_tag_offset as int)) == spec_walk(start, start.next_tag_offset as int),
+        ensures
+            it.next_tag_offset == it.buffer@.len(), it.buffer == start.buffer,
+            seen == spec_walk(start, start.next_tag_offset as int),
+        decreases it.buffer@.len() - it.next_tag_offset,
+    {
+        let ghost from = it.next_tag_offset as int;
+        let ghost before = *it;
+        match it.next() {
+            None => {
+                proof {
+                    assert(spec_walk(start, from) =~= Seq::empty());
+                    assert(seen.add(Seq::<int>::empty()) =~= seen);
+                }
+                break;
+            }
+            Some(t) => {
+                proof {
+                    let sz = before.hdr_at_off(from).declared_total();
+                    assert(start.hdr_at_off(from) == before.hdr_at_off(from));
+                    lemma_round8_props(sz);
+                    assert(spec_walk(start, from) == seq![from].add(spec_walk(start, from + round8(sz))));
+                    assert(seen.push(from).add(spec_walk(start, it.next_tag_offset as int))
+                        =~= seen.add(seq![from].add(spec_walk(start, from + round8(sz)))));
+                    seen = seen.push(from);
+                }
+            }
+        }
+    }
+    Ghost(seen)
+}
+
 } // verus!
